@@ -50,7 +50,7 @@ Definition enc_const : list (string * ty) :=
   ; ("Bytes", TStr)                (* case Bytes:    e.int(1); e.string(string(c)) *)
   ; ("int64", TInt)                (* case int64:    e.int(2); e.int64(c) *)
   ; ("float64bits", TU64)          (* case float64:  e.int(3); e.uint64(math.Float64bits(c)) *)
-  ; ("bigint.Text10", TStr) ].     (* case *big.Int: e.int(4); e.string(c.Text(10)) *)
+  ; ("bigint.Text10", TBig) ].     (* case *big.Int: e.int(4); e.string(c.Text(10)) *)
 
 (* func (prog *Program) Encode(), after magic, offset and e.int(Version) *)
 Definition enc_program : list (string * ty) :=
@@ -93,7 +93,7 @@ Definition dec_const : list (string * ty) :=
   ; ("Bytes", TStr)                (* case 1: c = Bytes(d.string()) *)
   ; ("int64", TInt)                (* case 2: c = d.int64() *)
   ; ("float64bits", TU64)          (* case 3: c = math.Float64frombits(d.uint64()) *)
-  ; ("bigint.Text10", TStr) ].     (* case 4: c, _ = new(big.Int).SetString(d.string(), 10) *)
+  ; ("bigint.Text10", TBig) ].     (* case 4: c, _ = new(big.Int).SetString(d.string(), 10) *)
 
 (* DecodeProgram after the magic, offset and version checks *)
 Definition dec_program : list (string * ty) :=
@@ -164,7 +164,7 @@ Definition const_val (S : schema) (c : const) : val :=
   | CBytes s => alt_val S "Bytes" (VStr s)
   | CInt z => alt_val S "int64" (VInt z)
   | CFloat b => alt_val S "float64bits" (VInt b)
-  | CBigInt t => alt_val S "bigint.Text10" (VStr t)
+  | CBigInt z => alt_val S "bigint.Text10" (VBig z)
   end.
 
 Definition program_get (S : schema) (p : program) (name : string) : val :=
@@ -255,8 +255,8 @@ Definition const_of (S : schema) (v : val) : option const :=
       | Some k, VStr s =>
           if k =s "string" then Some (CString s)
           else if k =s "Bytes" then Some (CBytes s)
-          else if k =s "bigint.Text10" then Some (CBigInt s)
           else None
+      | Some k, VBig z => if k =s "bigint.Text10" then Some (CBigInt z) else None
       | Some k, VInt z =>
           if k =s "int64" then Some (CInt z)
           else if k =s "float64bits" then Some (CFloat z)
